@@ -991,7 +991,7 @@ func craft(t *rapid.T, N, d *big.Int, h crypto.Hash, msg []byte, frame func([]by
 		copy(db[len(db)-sl:], salt)
 		return
 	}
-	kinds := []string{"valid", "valid", "salt-len", "salt-len", "salt-len", "trailer", "topbits", "ps-nonzero", "no-separator", "wrong-H", "other-msg", "em-overflow", "em-overflow", "sig+N", "sig+N", "sig-alt", "sig-alt", "random"}
+	kinds := []string{"valid", "valid", "salt-len", "salt-len", "salt-len", "trailer", "topbits", "ps-nonzero", "no-separator", "wrong-H", "other-msg", "em-overflow", "em-overflow", "sig+N", "sig+N", "sig-alt", "sig-alt", "random", "short-signature"}
 	kind = rapid.SampledFrom(kinds).Draw(t, "craft")
 	outMsg = msg
 	base := sLen
@@ -1082,6 +1082,19 @@ func craft(t *rapid.T, N, d *big.Int, h crypto.Hash, msg []byte, frame func([]by
 			} else {
 				kind = "valid"
 				sig = s
+			}
+		}
+	case "short-signature":
+		// a valid signature whose leading octet is zero (found by trying salts), presented without it:
+		// I2OSP output always has k octets, crypto/rsa refuses any other length
+		kind = "valid"
+		sig = sign(encodeWith(base))
+		if base > 0 {
+			for try := 0; try < 700; try++ {
+				if s := sign(encodeWith(base)); s != nil && s[0] == 0 {
+					sig, kind = append([]byte{}, s[1:]...), "short-signature(leading-zero-octet-dropped)"
+					break
+				}
 			}
 		}
 	case "sig-alt":
